@@ -115,6 +115,10 @@ def run_case(case):
             b_gc = bearing(lat0, lon0, la, lo)
             d_loc = math.hypot(x2, y2)
             b_loc = math.degrees(math.atan2(x2, y2)) % 360.0
+            if d_gc == 0.0:
+                viol.append({"what": "distance", "ref": (lat0, lon0), "latlon": (la, lo), "local_m": d_loc, "great_circle_m": 0.0,
+                             "note": "non-zero offset mapped onto the reference point"})
+                continue
             rel = abs(d_loc - d_gc) / d_gc
             resid["distance_rel"] = max(resid["distance_rel"], rel)
             if rel > 1e-3:
